@@ -255,7 +255,19 @@ func c19(w *core.World, r *core.Report) {
 	}
 	r.OK("LOCK-RELEASE", "scope", "", fmt.Sprintf("%d lock acquisitions in scope examined", nLocks))
 	if gd := w.Func("pkg/server", "Server", "GetData"); gd != nil {
-		for _, a := range gd.AnonFuncs {
+		fwd := append([]*ssa.Function{}, gd.AnonFuncs...)
+		for _, sp := range core.Spawned(gd) {
+			dup := false
+			for _, x := range fwd {
+				if x == sp {
+					dup = true
+				}
+			}
+			if !dup {
+				fwd = append(fwd, sp) // the forwarder as a named function
+			}
+		}
+		for _, a := range fwd {
 			// the forwarder: has a select receiving from a channel of GetDataResponse
 			var sel *ssa.Select
 			for _, b := range core.Blocks(a) {
